@@ -12,7 +12,7 @@ from harness.core import attempt, cq_bool, cq_str, cq_vals
 from nested_pandas import NestedFrame
 from nested_pandas.series.ext_array import NestedExtensionArray as NEA
 
-LAYOUTS = [l for l in gen.LAYOUTS if l != "missing_hidden"]
+LAYOUTS = [l for l in gen.LAYOUTS if l != "missing_hidden"] + ["history", "history"]
 
 
 def snapshot_other(nf, skip):
@@ -44,6 +44,9 @@ def generate(ctx):
             kind = "repeats"
         else:
             inp = ao.mk_input(rng, max_rows=6, recipes=LAYOUTS)
+        if inp.get("history_failed"):
+            cases.append(ao.history_failure_case(inp))
+            continue
         if inp["built"][0] != "ok":
             continue
         arr, n = inp["arr"], len(inp["rows"])
